@@ -1,7 +1,12 @@
 package zzstore
 
 import (
+	"context"
+
+	"github.com/google/badwolf/triple/node"
+	"github.com/google/badwolf/triple/predicate"
 	verif "github.com/google/badwolf/internal/zzverif"
+	"github.com/google/badwolf/bql/planner/filter"
 	"github.com/google/badwolf/storage"
 	"github.com/google/badwolf/storage/memoization"
 	"github.com/google/badwolf/storage/memory"
@@ -173,4 +178,249 @@ func c19SameArgs(m, a, b int, pool []*triple.Triple) bool {
 		return pool[a].Subject().String() == pool[b].Subject().String() && pool[a].Predicate().String() == pool[b].Predicate().String()
 	}
 	return a == b
+}
+
+// c19Specs: the concrete pool as specs (so that the generic lookup of C02 can
+// attribute results): two temporal triples sharing subject and predicate id at
+// an instant and one nanosecond later, a third at a much later instant, and an
+// immutable one.
+func c19Specs() []*spec {
+	mk := func(s, p, o byte, pk, pa int) *spec {
+		sp := &spec{sb: s, pb: p, ob: o, pk: pk, pa: pa}
+		sp.t = sp.build()
+		return sp
+	}
+	return []*spec{mk('a', 'p', 'x', 1, 0), mk('a', 'p', 'y', 1, 1), mk('a', 'p', 'x', 1, 3), mk('b', 'q', 'x', 0, 0), mk('a', 'q', 'y', 0, 0)}
+}
+
+// c19ReadAll performs read m (0..9 the ten indexed lookups of C02, 10 the full
+// listing, 11 Exist) with the components of q.
+func c19ReadAll(g storage.Graph, m int, q *spec, lo *storage.LookupOptions, all []*spec) (res []*spec, ex bool, err error, foreign bool) {
+	switch m {
+	case 10:
+		ch := make(chan *triple.Triple, 64)
+		err = g.Triples(ctx, lo, ch)
+		for v := range ch {
+			var f *spec
+			for _, x := range all {
+				if x.t == v {
+					f = x
+				}
+			}
+			if f == nil {
+				foreign = true
+			} else {
+				res = append(res, f)
+			}
+		}
+		return
+	case 11:
+		ex, err = g.Exist(ctx, q.t)
+		return
+	}
+	res, err, foreign = lookup(g, m, q, lo, all)
+	return
+}
+
+type c19Opt struct {
+	max, off     int
+	lower, upper int // index into anchorPool, -1 = nil
+	latest       bool
+	filter       int // 0 none, 1 isTemporal, 2 isImmutable, 3 latest (predicate field)
+}
+
+func (o c19Opt) build() *storage.LookupOptions {
+	lo := &storage.LookupOptions{MaxElements: o.max, Offset: o.off, LatestAnchor: o.latest}
+	if o.lower >= 0 {
+		t := anchorPool[o.lower]
+		lo.LowerAnchor = &t
+	}
+	if o.upper >= 0 {
+		t := anchorPool[o.upper]
+		lo.UpperAnchor = &t
+	}
+	if o.filter > 0 {
+		ops := []filter.Operation{filter.IsTemporal, filter.IsImmutable, filter.Latest}
+		lo.FilterOptions = &filter.StorageOptions{Operation: ops[o.filter-1], Field: filter.PredicateField}
+	}
+	return lo
+}
+
+// c19SymOpt draws lookup options: one dimension (a skeleton choice) departs
+// from the default; page size and offset are solver variables.
+func c19SymOpt(name string) c19Opt {
+	o := c19Opt{lower: -1, upper: -1}
+	switch verif.Choice(name+".dim", 9) {
+	case 1:
+		o.max = verif.Int(name + ".max")
+		o.off = verif.Int(name + ".off")
+		verif.Assume(verif.And(verif.And(o.max >= 1, o.max <= 2), verif.And(o.off >= 0, o.off <= 2)))
+	case 2:
+		o.lower = 0
+	case 3:
+		o.lower = 1 // one nanosecond later
+	case 4:
+		o.lower = 2 // the instant of 0 spelled in another zone
+	case 5:
+		o.upper = 0
+	case 6:
+		o.upper = 1
+	case 7:
+		o.latest = true
+	case 8:
+		o.filter = 1 + verif.Choice(name+".filter", 3)
+	}
+	return o
+}
+
+func sameSpecs(a, b []*spec) bool {
+	if len(a) != len(b) {
+		return false
+	}
+	for i := range a {
+		if a[i] != b[i] {
+			return false
+		}
+	}
+	return true
+}
+
+// C19 (a'): every read method of the wrapper, two consecutive reads with the
+// same arguments and independently chosen options (so that "different options,
+// same cache key" is reachable for every dimension of the options), with or
+// without a write in between; each read must return what the plain store
+// returns at that moment.
+func HarnessC19OptionPairs() {
+	all := c19Specs()
+	ms := memoization.New(memory.NewStore())
+	ps := memory.NewStore()
+	mg, e1 := ms.NewGraph(ctx, "?g")
+	pg, e2 := ps.NewGraph(ctx, "?g")
+	verif.Assume(e1 == nil && e2 == nil)
+	mg.AddTriples(ctx, triples(all[:4]))
+	pg.AddTriples(ctx, triples(all[:4]))
+	m := verif.Param("METHOD", -1)
+	if m < 0 {
+		m = verif.Choice("method", 12)
+	}
+	q := all[verif.Choice("arg", 2)*3] // the arguments of triple 0 or 3
+	o1, o2 := c19SymOpt("o1"), c19SymOpt("o2")
+	check := func(o c19Opt, tag string) {
+		got, gotE, err1, f1 := c19ReadAll(mg, m, q, o.build(), all)
+		want, wantE, err2, f2 := c19ReadAll(pg, m, q, o.build(), all)
+		verif.Assert(verif.And(!f1, !f2), "C19/pairs/result-derived-from-stored-triple")
+		verif.Assert((err1 == nil) == (err2 == nil), "C19/pairs/same-error")
+		if m == 11 {
+			verif.Assert(gotE == wantE, "C19/pairs/exist-same-answer")
+		} else {
+			verif.Assert(sameSpecs(got, want), "C19/pairs/read-same-answer")
+		}
+	}
+	check(o1, "first")
+	verif.Reach("first-read")
+	switch verif.Choice("between", 3) {
+	case 1:
+		mg.AddTriples(ctx, triples(all[4:]))
+		pg.AddTriples(ctx, triples(all[4:]))
+	case 2:
+		mg.RemoveTriples(ctx, triples(all[:1]))
+		pg.RemoveTriples(ctx, triples(all[:1]))
+	default:
+		// the recorded defect: Offset is not part of the cache key
+		if o1.lower == o2.lower && o1.upper == o2.upper && o1.latest == o2.latest && o1.filter == o2.filter && verif.And(o1.max == o2.max, o1.off != o2.off) {
+			verif.Class("offset-not-in-cache-key")
+		}
+	}
+	check(o2, "second")
+	verif.Reach("second-read")
+}
+
+// startRead starts read method m (0..10) of g in its own goroutine under cctx
+// with an unbuffered result channel.  next receives one element (false when
+// the channel is closed); wait returns the method's error once it has returned.
+func startRead(cctx context.Context, g storage.Graph, m int, q *spec, lo *storage.LookupOptions) (next func() bool, wait func() error) {
+	s, p, o := q.t.Subject(), q.t.Predicate(), q.t.Object()
+	errc := make(chan error, 1)
+	switch m {
+	case 0:
+		ch := make(chan *triple.Object)
+		go func() { errc <- g.Objects(cctx, s, p, lo, ch) }()
+		next = func() bool { _, ok := <-ch; return ok }
+	case 1:
+		ch := make(chan *node.Node)
+		go func() { errc <- g.Subjects(cctx, p, o, lo, ch) }()
+		next = func() bool { _, ok := <-ch; return ok }
+	case 2, 3, 4:
+		ch := make(chan *predicate.Predicate)
+		go func() {
+			switch m {
+			case 2:
+				errc <- g.PredicatesForSubject(cctx, s, lo, ch)
+			case 3:
+				errc <- g.PredicatesForObject(cctx, o, lo, ch)
+			default:
+				errc <- g.PredicatesForSubjectAndObject(cctx, s, o, lo, ch)
+			}
+		}()
+		next = func() bool { _, ok := <-ch; return ok }
+	default:
+		ch := make(chan *triple.Triple)
+		go func() {
+			switch m {
+			case 5:
+				errc <- g.TriplesForSubject(cctx, s, lo, ch)
+			case 6:
+				errc <- g.TriplesForPredicate(cctx, p, lo, ch)
+			case 7:
+				errc <- g.TriplesForObject(cctx, o, lo, ch)
+			case 8:
+				errc <- g.TriplesForSubjectAndPredicate(cctx, s, p, lo, ch)
+			case 9:
+				errc <- g.TriplesForPredicateAndObject(cctx, p, o, lo, ch)
+			default:
+				errc <- g.Triples(cctx, lo, ch)
+			}
+		}()
+		next = func() bool { _, ok := <-ch; return ok }
+	}
+	return next, func() error { return <-errc }
+}
+
+// C19 (c): a read that its caller abandons (takes N elements, cancels the
+// context and stops receiving) must not change what later reads return: the
+// same read issued again through the same handle returns what the plain store
+// returns.
+func HarnessC19Abandon() {
+	all := c19Specs()
+	ms := memoization.New(memory.NewStore())
+	ps := memory.NewStore()
+	mg, e1 := ms.NewGraph(ctx, "?g")
+	pg, e2 := ps.NewGraph(ctx, "?g")
+	verif.Assume(e1 == nil && e2 == nil)
+	mg.AddTriples(ctx, triples(all))
+	pg.AddTriples(ctx, triples(all))
+	m := verif.Choice("method", 11)
+	q := all[verif.Choice("arg", 2)*3]
+	take := verif.Choice("take", 3)
+	warm := verif.Choice("warm", 2) == 1
+	lo := &storage.LookupOptions{}
+	if warm {
+		c19ReadAll(mg, m, q, lo, all)
+	}
+	cctx, cancel := context.WithCancel(ctx)
+	next, wait := startRead(cctx, mg, m, q, lo)
+	open := true
+	for i := 0; i < take && open; i++ {
+		open = next()
+	}
+	cancel()
+	if open {
+		wait()
+	}
+	verif.Reach("abandoned")
+	got, _, err1, f1 := c19ReadAll(mg, m, q, lo, all)
+	want, _, err2, f2 := c19ReadAll(pg, m, q, lo, all)
+	verif.Assert(verif.And(!f1, !f2), "C19/abandon/result-derived-from-stored-triple")
+	verif.Assert((err1 == nil) == (err2 == nil), "C19/abandon/same-error")
+	verif.Assert(sameSpecs(got, want), "C19/abandon/read-same-answer")
 }
